@@ -502,7 +502,13 @@ def _mk():
         f"RATIO_CROPS_YEAR{y}": V(c1[f"RATIO_CROPS_YEAR{y}"]) * v for y in range(1, 12) if f"RATIO_CROPS_YEAR{y}" in c1}, rng=(0, 10)))
     cs.append(Override("GRASSES_PRODUCTION_MULTIPLIER", None, lambda c1, v: {
         f"RATIO_GRASSES_YEAR{y}": V(c1[f"RATIO_GRASSES_YEAR{y}"]) * v for y in range(1, 11)}, rng=(0, 10)))
-    for sp in ("milk_cattle", "asses", "turkey", "rabbit", "chicken"):
+    # every species whose head count can be overridden: the *_head columns of the shipped stock table (the table the
+    # override is written into), read from the tree under check
+    try:
+        species = [c[: -len("_head")] for c in species_columns(os.environ.get("REPO", "/repo"))]
+    except OSError:
+        species = []
+    for sp in species or ("milk_cattle", "asses", "turkey", "rabbit", "chicken"):
         cs.append(Override(f"{sp}_head", "1234", lambda c1, sp=sp: {f"{sp}_head_start": 1234}))
     return cs
 
